@@ -100,6 +100,7 @@ def walk : Nat → State → Obj → List Name → Bool → Except Nat Obj
 /-- `dirfd`-relative resolution of `path` -/
 def resolve (s : State) (d : Obj) (path : Name) (followLast : Bool) : Except Nat Obj :=
   if path.isEmpty then .error ENOENT
+  else if !path.contains SLASH then walk 40 s d [path] followLast     -- a single component
   else
     let start := if path.head? == some SLASH then s.hostRoot else d
     let comps := splitPath path
@@ -161,20 +162,26 @@ def createCheck (s : State) (d : Obj) (name : Name) : Except Nat Node :=
     else if !mayWriteDir s dn then .error EACCES
     else .ok dn
 
-/-- open an inode for I/O (not `O_PATH`) -/
+/-- the error of opening an inode for I/O, if any -/
+def openErr (s : State) (n : Node) (flags : Nat) : Option Nat :=
+  let acc := flags &&& O_ACCMODE
+  if n.kind == .lnk then some ELOOP
+  else if has flags O_DIRECTORY && n.kind != .dir then some ENOTDIR
+  else if n.kind == .dir && (acc != O_RDONLY || has flags O_CREAT) then some EISDIR
+  else if (acc == O_RDONLY || acc == O_RDWR) && !mayRead s n then some EACCES
+  else if (acc == O_WRONLY || acc == O_RDWR || has flags O_TRUNC) && !mayWrite s n then some EACCES
+  else none
+
+/-- open an inode for I/O (not `O_PATH`); `O_TRUNC` empties a regular file -/
 def openObj (s : State) (o : Obj) (flags : Nat) : HAns × State :=
   match s.nodes o with
   | none => (.err ENOENT, s)
   | some n =>
-    let acc := flags &&& O_ACCMODE
-    if n.kind == .lnk then (.err ELOOP, s)
-    else if has flags O_DIRECTORY && n.kind != .dir then (.err ENOTDIR, s)
-    else if n.kind == .dir && (acc != O_RDONLY || has flags O_CREAT) then (.err EISDIR, s)
-    else if (acc == O_RDONLY || acc == O_RDWR) && !mayRead s n then (.err EACCES, s)
-    else if (acc == O_WRONLY || acc == O_RDWR || has flags O_TRUNC) && !mayWrite s n then (.err EACCES, s)
-    else
-      let s1 := if has flags O_TRUNC && n.kind == .reg then setNode s o { n with data := [], mtime := none } else s
-      newFd s1 o flags
+    match openErr s n flags with
+    | some e => (.err e, s)
+    | none =>
+      if has flags O_TRUNC && n.kind == .reg then newFd (setNode s o { n with data := [], mtime := none }) o flags
+      else newFd s o flags
 
 def removeEntry (n : Node) (name : Name) : Node := { n with entries := n.entries.filter (·.1 != name) }
 
@@ -210,6 +217,46 @@ def xattrAllowed (n : Node) (name : List UInt8) : Option Nat :=
   else some EOPNOTSUPP
 
 def pad (l : List UInt8) (n : Nat) : List UInt8 := l ++ List.replicate (n - l.length) 0
+
+def plainName (n : Name) : Bool :=
+  !n.isEmpty && !n.contains SLASH && n != dot && n != dotdot && n.length ≤ NAME_MAX
+
+/-- the checks of `renameat2`; `ok none` = source and target are the same object (nothing to do),
+    `ok (some (c, cn))` = move entry `oname` ↦ `c` -/
+def renameCheck (s : State) (nd : Obj) (odn ndn : Node) (oname nname : Name) (flags : Nat) : Except Nat (Option (Obj × Node)) :=
+  if flags > 3 || flags == 3 then .error EINVAL
+  else if odn.kind != .dir || ndn.kind != .dir then .error ENOTDIR
+  else if !plainName oname || !plainName nname then .error (if oname.isEmpty || nname.isEmpty then ENOENT else EBUSY)
+  else match odn.entries.lookup oname with
+    | none => .error ENOENT
+    | some c =>
+      match s.nodes c with
+      | none => .error ENOENT
+      | some cn =>
+        let tgt := ndn.entries.lookup nname
+        if flags == RENAME_NOREPLACE && tgt.isSome then .error EEXIST
+        else if flags == RENAME_EXCHANGE then .error (if tgt.isNone then ENOENT else EINVAL)  -- (exchange itself not modelled)
+        else if ndn.nlink == 0 then .error ENOENT
+        else if tgt == some c then .ok none
+        else if cn.kind == .dir && isBelow 64 s nd c then .error EINVAL
+        else
+          match tgt.bind s.nodes with
+          | some tn =>
+            if cn.kind == .dir && tn.kind != .dir then .error ENOTDIR
+            else if cn.kind != .dir && tn.kind == .dir then .error EISDIR
+            else if tn.kind == .dir && !tn.entries.isEmpty then .error ENOTEMPTY
+            else .ok (some (c, cn))
+          | none => .ok (some (c, cn))
+
+/-- the effect of a successful rename: an existing target loses a link, the entry moves, a moved
+    directory gets its new parent -/
+def renameApply (s : State) (od nd : Obj) (oname nname : Name) (c : Obj) (cn : Node) (tgt : Option Obj) : State :=
+  let s1 := match tgt with
+    | some t => modNode s t (fun tn => { tn with nlink := if tn.kind == .dir then 0 else tn.nlink - 1 })
+    | none => s
+  let s2 := modNode s1 od (fun n => removeEntry n oname)
+  let s3 := modNode s2 nd (fun n => { removeEntry n nname with entries := (nname, c) :: (removeEntry n nname).entries })
+  if cn.kind == .dir then modNode s3 c (fun n => { n with parent := nd }) else s3
 
 /-- the system calls (credentials are restored by `step` for calls that are not credential calls) -/
 def stepCore (s : State) : HCall → HAns × State
@@ -335,45 +382,13 @@ def stepCore (s : State) : HCall → HAns × State
   | .renameat2 odfd oname ndfd nname flags =>
     match fdObj s odfd, fdObj s ndfd with
     | some od, some nd =>
-      let plain (n : Name) : Bool := !n.isEmpty && !n.contains SLASH && n != dot && n != dotdot && n.length ≤ NAME_MAX
-      if flags > 3 || flags == 3 then (.err EINVAL, s)
-      else match s.nodes od, s.nodes nd with
-        | some odn, some ndn =>
-          if odn.kind != .dir || ndn.kind != .dir then (.err ENOTDIR, s)
-          else if !plain oname || !plain nname then (.err (if oname.isEmpty || nname.isEmpty then ENOENT else EBUSY), s)
-          else match odn.entries.lookup oname with
-            | none => (.err ENOENT, s)
-            | some c =>
-              match s.nodes c with
-              | none => (.err ENOENT, s)
-              | some cn =>
-                let tgt := ndn.entries.lookup nname
-                if flags == RENAME_NOREPLACE && tgt.isSome then (.err EEXIST, s)
-                else if flags == RENAME_EXCHANGE then (.err (if tgt.isNone then ENOENT else EINVAL), s)  -- (exchange itself not modelled)
-                else if ndn.nlink == 0 then (.err ENOENT, s)
-                else if tgt == some c then (.ok, s)
-                else if cn.kind == .dir && isBelow 64 s nd c then (.err EINVAL, s)
-                else
-                  -- an existing target is replaced
-                  let chk : Option Nat := match tgt.bind s.nodes with
-                    | some tn =>
-                      if cn.kind == .dir && tn.kind != .dir then some ENOTDIR
-                      else if cn.kind != .dir && tn.kind == .dir then some EISDIR
-                      else if tn.kind == .dir && !tn.entries.isEmpty then some ENOTEMPTY
-                      else none
-                    | none => none
-                  match chk with
-                  | some e => (.err e, s)
-                  | none =>
-                    let s1 := match tgt with
-                      | some t => modNode s t (fun tn => { tn with nlink := if tn.kind == .dir then 0 else tn.nlink - 1 })
-                      | none => s
-                    -- remove from the old directory, add to the new one
-                    let s2 := modNode s1 od (fun n => removeEntry n oname)
-                    let s3 := modNode s2 nd (fun n => { removeEntry n nname with entries := (nname, c) :: (removeEntry n nname).entries })
-                    let s4 := if cn.kind == .dir then modNode s3 c (fun n => { n with parent := nd }) else s3
-                    (.ok, s4)
-        | _, _ => (.err ENOENT, s)
+      match s.nodes od, s.nodes nd with
+      | some odn, some ndn =>
+        match renameCheck s nd odn ndn oname nname flags with
+        | .error e => (.err e, s)
+        | .ok none => (.ok, s)
+        | .ok (some (c, cn)) => (.ok, renameApply s od nd oname nname c cn (ndn.entries.lookup nname))
+      | _, _ => (.err ENOENT, s)
     | _, _ => (.err EBADF, s)
   | .readlinkat f _ bufsz =>
     match fdObj s f with
